@@ -199,6 +199,39 @@ func (g *Gen) typesPkg(path string) *types.Package {
 	return nil
 }
 
+// importedPkgWith: like importedPkg, but when several imported packages share the name (different files of the package
+// may import different packages under one name) prefers the one that declares ident (or a ghost of that name).
+func (g *Gen) importedPkgWith(pkg *types.Package, name, ident string) *types.Package {
+	var cands []*types.Package
+	if pkg != nil {
+		for _, imp := range pkg.Imports() {
+			if imp.Name() == name {
+				cands = append(cands, imp)
+			}
+		}
+		if pp, ok := g.byPath[pkg.Path()]; ok {
+			for _, f := range pp.Syntax {
+				for _, is := range f.Imports {
+					if is.Name != nil && is.Name.Name == name {
+						if p, ok := g.byPath[strings.Trim(is.Path.Value, "\"")]; ok {
+							cands = append(cands, p.Types)
+						}
+					}
+				}
+			}
+		}
+	}
+	for _, c := range cands {
+		if c.Scope().Lookup(ident) != nil || g.ghosts[c.Path()+"."+ident] != nil || g.ghostGlobals[c.Path()+"."+ident] != nil || g.contracts[c.Path()+"."+ident] != nil {
+			return c
+		}
+	}
+	if len(cands) > 0 {
+		return cands[0]
+	}
+	return g.importedPkg(pkg, name)
+}
+
 // importedPkg resolves a package name as imported by pkg (or any loaded package with that name as fallback).
 func (g *Gen) importedPkg(pkg *types.Package, name string) *types.Package {
 	if pkg != nil {
